@@ -1,4 +1,5 @@
 import GlueVerif.Lemmas.Geometry
+import GlueVerif.Lemmas.GeometryPoly
 import GlueVerif.Props.C20
 /-!
 # C08 — region containment is geometrically exact and equivariant under move / rotate / copy
@@ -173,6 +174,56 @@ theorem rotate_equivariant_ellipse (e : Ellipse) (c' s' : Rat) (p : Pt)
   rw [Lemmas.Geometry.ellipse_branches_agree (ellTurn e c' s') p hu' hrx hry hax' hq',
     Lemmas.Geometry.ellipse_branches_agree e _ hu hrx hry hax hq]
   exact ellTurn_spec e c' s' p hu
+
+/-- **The even-odd rule does not depend on the direction of the ray**: for a closed polygon (given
+by its vertices relative to the test point) and a test point that lies on none of its edges, the
+crossing parity seen along any unit direction equals the parity along `+x` (which is what
+matplotlib computes).  This is the fact behind rotation equivariance of polygons. -/
+theorem evenodd_direction_independent (c s : Rat) (hu : c * c + s * s = 1) (vs : List Pt)
+    (hoff : offPoly vs) : parityDir c s vs = parityDir 1 0 vs :=
+  parityDir_unit c s hu vs hoff
+
+/-- **`rotate_equivariant`, polygon** (even-odd rule): turning every vertex and the test point
+about any centre by any unit rotation does not change the answer, for every polygon (open, closed,
+concave, self-intersecting) and every point lying on none of its edges. -/
+theorem rotate_equivariant_polygon_spec (ctr : Pt) (c s : Rat) (hu : c * c + s * s = 1) (vs : List Pt) (p : Pt)
+    (hoff : offBoundary vs p) :
+    crossParity (vs.map (rotAbout ctr c s)) (rotAbout ctr c s p) = crossParity vs p :=
+  crossParity_rotate ctr c s hu vs p hoff
+
+/-- **`rotate_equivariant`, polygon** on the coded test (`points_inside_poly` = bounding-box prefilter
++ crossing test): after the vertices have been turned about `ctr`, a point is contained iff the point
+turned back was contained before — whenever that pre-image is outside the band (any width `ε`). -/
+theorem rotate_equivariant_polygon (ctr : Pt) (c s : Rat) (hu : c * c + s * s = 1) (vs : List Pt) (p : Pt)
+    (ε : Rat) (h3 : 3 ≤ vs.length) (hfar : polyNear vs (turnBack ctr c s p) ε = false) :
+    Impl.polyContains (vs.map (rotAbout ctr c s)) p = Impl.polyContains vs (turnBack ctr c s p) :=
+  polyTurn_impl ctr c s hu vs p h3 (offBoundary_of_not_near vs _ ε hfar)
+
+/-- `rotate_to` as coded for a polygon: unless the change of angle is within `1e-9` of a full turn,
+the vertices are turned about `center()` by `θ' − θ` and containment follows. -/
+theorem rotateTo_polygon (g : Poly) (c s : Rat) (p : Pt) (ε : Rat)
+    (hu : c * c + s * s = 1) (hg : g.c * g.c + g.s * g.s = 1) (h3 : 3 ≤ g.vs.length)
+    (hnot : closeFull (c * g.c + s * g.s) (s * g.c - c * g.s) = false)
+    (hfar : polyNear g.vs (turnBack (polyCenter g.vs) (c * g.c + s * g.s) (s * g.c - c * g.s) p) ε = false) :
+    Impl.contains ((Roi.poly g).rotateTo c s) p =
+      Impl.contains (.poly g) (turnBack (polyCenter g.vs) (c * g.c + s * g.s) (s * g.c - c * g.s) p) := by
+  have hd : (c * g.c + s * g.s) * (c * g.c + s * g.s) + (s * g.c - c * g.s) * (s * g.c - c * g.s) = 1 := by
+    have : (c * g.c + s * g.s) * (c * g.c + s * g.s) + (s * g.c - c * g.s) * (s * g.c - c * g.s)
+        = (c * c + s * s) * (g.c * g.c + g.s * g.s) := by ring
+    rw [this, hu, hg, mul_one]
+  simp only [Roi.rotateTo, hnot, Bool.false_eq_true, if_false, Impl.contains]
+  exact polyTurn_impl _ _ _ hd g.vs p h3 (offBoundary_of_not_near _ _ ε hfar)
+
+/-- The band used by the check contains the boundary: a point outside `polyNear` (any width) lies
+on no edge. -/
+theorem polygon_band_contains_boundary (vs : List Pt) (p : Pt) (ε : Rat) (h : polyNear vs p ε = false) :
+    offBoundary vs p :=
+  offBoundary_of_not_near vs p ε h
+
+example : offBoundary [(0, 0), (4, 0), (0, 3)] (1, 1) ∧ polyNear [(0, 0), (4, 0), (0, 3)] (1, 1) (1/10) = false ∧
+    crossParity ([(0, 0), (4, 0), (0, 3)].map (rotAbout (1, 1) (3/5) (4/5))) (rotAbout (1, 1) (3/5) (4/5) (1, 1)) = true := by
+  refine ⟨?_, by decide +kernel, by decide +kernel⟩
+  refine ⟨?_, ?_, ?_, trivial⟩ <;> (rintro ⟨h1, h2⟩; norm_num [relPt] at h1)
 
 /-! ## copy, save / restore, array arrangement, chunking -/
 
